@@ -395,8 +395,23 @@ class DigestCredentialFactory:
         if "nonce" not in auth:
             raise error.LoginFailed("Invalid response, no nonce given.")
 
-        if auth.get("algorithm", b"md5").lower() not in algorithms:
+        algorithm = auth.get("algorithm", b"md5").lower()
+        if algorithm not in algorithms:
             raise error.LoginFailed("Invalid response, unsupported algorithm.")
+
+        if "uri" not in auth:
+            raise error.LoginFailed("Invalid response, no uri given.")
+
+        qop = auth.get("qop")
+        if qop is None:
+            if auth.get("nc") and auth.get("cnonce"):
+                raise error.LoginFailed("Invalid response, nc and cnonce without qop.")
+        elif qop != b"auth":
+            # auth-int would need the entity body, which is not available here.
+            raise error.LoginFailed("Invalid response, unsupported qop.")
+
+        if algorithm == b"md5-sess" and "cnonce" not in auth:
+            raise error.LoginFailed("Invalid response, no cnonce given.")
 
         # Now verify the nonce/opaque values for this client
         if self._verifyOpaque(auth.get("opaque"), auth.get("nonce"), host):
